@@ -269,6 +269,7 @@ Qed.
 
 Lemma hs_prelude_hist m m2 c src n c1 :
   pre_inv c -> 0 < src -> 0 <= n -> hs_prelude m c src n = Some c1 ->
+  is_suffix (hvis m2 (hs_core c1)) (hvis m2 (hs_core (pre1 c src))) /\
   is_suffix (hvis m2 (hs_core c1)) (hvis m2 (hs_core c)) /\ clear_of (hs_core c1) src n.
 Proof.
   intros P Hs Hn. rewrite hs_prelude_eq.
@@ -277,11 +278,13 @@ Proof.
   destruct (pre2_ok m (pre1 c src) c2 P1 A1 E2) as (P2 & A2 & G2 & D2).
   destruct (pre3_ok c2 src P2 A2 G2 ltac:(lia)) as (P3 & R3 & D3).
   destruct (pre4_hist m2 (pre3 c2 src) src n R3 ltac:(lia) Hn) as (H4 & C4).
-  intros Heq. injection Heq as <-. split; [|exact C4].
-  eapply is_suffix_trans; [exact H4|].
-  eapply is_suffix_trans; [apply (pre3_hist m2 c2 src (proj1 P2) A2 ltac:(lia))|].
-  eapply is_suffix_trans; [apply (pre2_hist m m2 (pre1 c src) c2 (proj1 P1) E2)|].
-  apply (pre1_hist m2 c src (proj1 P) ltac:(lia)).
+  intros Heq. injection Heq as <-.
+  assert (S1 : is_suffix (hvis m2 (hs_core (pre4 (pre3 c2 src) src n))) (hvis m2 (hs_core (pre1 c src)))).
+  { eapply is_suffix_trans; [exact H4|].
+    eapply is_suffix_trans; [apply (pre3_hist m2 c2 src (proj1 P2) A2 ltac:(lia))|].
+    apply (pre2_hist m m2 (pre1 c src) c2 (proj1 P1) E2). }
+  split; [exact S1|]. split; [|exact C4].
+  eapply is_suffix_trans; [exact S1|]. apply (pre1_hist m2 c src (proj1 P) ltac:(lia)).
 Qed.
 
 (* ---------------------------------------------------------------- the context the parser runs on *)
@@ -289,16 +292,23 @@ Qed.
    stream's own; dictionary context copied in: they are the dictionary stream's prefix *)
 Lemma hs_effective_hist m m2 c src n ke H :
   pre_inv c -> 0 < src -> 0 <= n -> hs_effective m c src n = Some ke ->
-  hhist_inv m2 (hs_core c) H ->
+  (k_prefixStart (hs_core c) = 0 \/ hhist_inv m2 (hs_core c) H) ->
   (match hs_dctx c with Some d => hhist_inv m2 d H | None => True end) ->
   hhist_inv m2 ke H /\ (hs_dctx c = None -> clear_of ke src n).
 Proof.
   intros P Hs Hn. unfold hs_effective.
   destruct (hs_prelude m c src n) as [c1|] eqn:E; [|discriminate].
-  destruct (hs_prelude_hist m m2 c src n c1 P Hs Hn E) as (S1 & C1).
+  destruct (hs_prelude_hist m m2 c src n c1 P Hs Hn E) as (Sp & S1 & C1).
   destruct (hs_prelude_ok m c src n c1 P Hs Hn E) as (P1 & R1 & D1).
   unfold hs_pick. cbv zeta. intros Hp HI HD.
-  assert (Own : hhist_inv m2 (hs_core c1) H) by (eapply is_suffix_trans; [exact S1 | exact HI]).
+  assert (Own : hhist_inv m2 (hs_core c1) H).
+  { destruct HI as [Hz|HI]; [|eapply is_suffix_trans; [exact S1 | exact HI]].
+    assert (Ev : hvis m2 (hs_core (pre1 c src)) = []).
+    { unfold pre1. rewrite Hz. cbn [Z.eqb hs_core].
+      pose proof (k_init_internal_ok (hs_core c) src (proj1 (proj1 P)) ltac:(lia)) as I0. cbv zeta in I0.
+      destruct I0 as (_ & _ & _ & _ & I5 & I6 & I7 & _). apply hvis_nil; [unfold k_xlen; lia | unfold k_plen; lia]. }
+    rewrite Ev in Sp. destruct Sp as (q & Eq). symmetry in Eq. apply app_eq_nil in Eq. destruct Eq as (_ & Eq).
+    unfold hhist_inv. rewrite Eq. apply is_suffix_nil. }
   destruct (hs_dctx c1) as [d|] eqn:Ed.
   - assert (Edc : hs_dctx c = Some d) by (destruct D1 as [D1|D1]; congruence).
     rewrite Edc in HD.
@@ -335,7 +345,7 @@ Theorem hs_write_block_hist m c src bs ke H :
 Proof.
   intros P Hd Hs He HI.
   assert (HD : match hs_dctx c with Some d => hhist_inv m d H | None => True end) by (rewrite Hd; exact I).
-  destruct (hs_effective_hist (store_list m src bs) m c src (Z.of_nat (length bs)) ke H P Hs ltac:(lia) He HI HD) as (A & B).
+  destruct (hs_effective_hist (store_list m src bs) m c src (Z.of_nat (length bs)) ke H P Hs ltac:(lia) He (or_intror HI) HD) as (A & B).
   pose proof (hs_effective_ready (store_list m src bs) c src (Z.of_nat (length bs)) ke (proj1 P) (proj1 (proj2 P)) (proj2 (proj2 P)) Hs ltac:(lia) He) as ((L & Pp & _) & _).
   unfold hhist_inv. rewrite hvis_write; [exact A | exact (B Hd) | unfold k_xlen; lia | unfold k_plen; lia].
 Qed.
@@ -546,4 +556,49 @@ Proof.
     split; [exact C1|]. intros Hr. destruct (C2 Hr) as (A1 & A2 & A3 & A4).
     split; [exact A1|]. split; [exact A2|]. split; [exact A3|].
     specialize (A4 (Z.to_nat 65535) ltac:(lia)). unfold lastn in A4. cbn [length skipn Nat.sub] in A4. exact A4.
+Qed.
+
+(* ================================================================ C12: the dictionary routes, end to end *)
+(* LZ4_loadDictHC of any size at an lz4mid level, then a block anywhere in memory *)
+Theorem hc_loadDict_roundtrip m c a n c' r src k cap ret consumed out hw c'' :
+  hmem_ok m -> 0 <= n -> 0 <= a -> 0 < src -> 0 <= k < 2147483648 -> 0 <= cap ->
+  hs_loadDict m c a n = Some (c', r) ->
+  hs_continue m c' src k cap = Some (HRes ret consumed out hw c'') ->
+  (compressBound k <= cap -> k <= LZ4_MAX_INPUT_SIZE -> 0 < ret) /\
+  (0 < ret -> ret = Z.of_nat (length out) /\ ret <= Z.max cap (compressBound k) /\ consumed = k /\
+              win_strict (load_list m a (Z.to_nat n)) out (load_list m src (Z.to_nat k))).
+Proof.
+  intros Hm Hn Ha Hs Hk Hcap El Ec.
+  pose proof (hs_loadDict_ok m c a n c' r Hn Ha El) as LD. destruct LD as (L1 & _ & L3 & _ & _ & _ & _ & _ & L9 & L10).
+  pose proof (hs_loadDict_hist m c a n c' r Hn Ha El) as HI.
+  unfold hs_continue in Ec.
+  destruct (hs_continue_generic_sound m c' src k cap _ ret consumed out hw c'' Hm L1 L9 Hs Hk Hcap Ec) as (ke & Ee & R & _ & Q).
+  assert (HD : match hs_dctx c' with Some d => hhist_inv m d (load_list m a (Z.to_nat n)) | None => True end) by (rewrite L3; exact I).
+  destruct (hs_effective_hist m m c' src k ke _ (conj L1 (conj L9 L10)) Hs ltac:(lia) Ee (or_intror HI) HD) as (Hke & _).
+  apply (continue_claims m ke src k cap ret consumed out hw c'' _ Hk R Q Hke).
+  apply (hs_continue_generic_pos m c' src k cap _ ret consumed out hw c'' Hk Ec).
+Qed.
+
+(* LZ4_attach_HC_dictionary of a stream loaded at an lz4mid level onto a working stream that has not started
+   (LZ4_initStreamHC / LZ4_resetStreamHC(_fast)): when the call stays in the model (first block > 4 KB: the dictionary
+   context is copied) the block decodes with the dictionary bytes *)
+Theorem hc_attach_roundtrip m c0 d a n dc r src k cap ret consumed out hw c'' :
+  hmem_ok m -> hs_ok c0 -> k_dirty (hs_core c0) = false -> k_prefixStart (hs_core c0) = 0 ->
+  0 <= n -> 0 <= a -> 0 < src -> 0 <= k < 2147483648 -> 0 <= cap ->
+  hs_loadDict m d a n = Some (dc, r) ->
+  hs_continue m (hs_attach c0 (Some dc)) src k cap = Some (HRes ret consumed out hw c'') ->
+  (compressBound k <= cap -> k <= LZ4_MAX_INPUT_SIZE -> 0 < ret) /\
+  (0 < ret -> ret = Z.of_nat (length out) /\ ret <= Z.max cap (compressBound k) /\ consumed = k /\
+              win_strict (load_list m a (Z.to_nat n)) out (load_list m src (Z.to_nat k))).
+Proof.
+  intros Hm K0 Hd0 Hz Hn Ha Hs Hk Hcap El Ec.
+  pose proof (hs_loadDict_ok m d a n dc r Hn Ha El) as LD. destruct LD as (_ & L2 & _).
+  pose proof (hs_loadDict_hist m d a n dc r Hn Ha El) as HI.
+  assert (K : hs_ok (hs_attach c0 (Some dc))) by (apply hs_attach_ok; [exact K0 | exact L2]).
+  unfold hs_continue in Ec.
+  destruct (hs_continue_generic_sound m _ src k cap _ ret consumed out hw c'' Hm K Hd0 Hs Hk Hcap Ec) as (ke & Ee & R & Hl & Q).
+  assert (HD : match hs_dctx (hs_attach c0 (Some dc)) with Some x => hhist_inv m x (load_list m a (Z.to_nat n)) | None => True end) by exact HI.
+  destruct (hs_effective_hist m m _ src k ke _ (conj K (conj Hd0 Hl)) Hs ltac:(lia) Ee (or_introl Hz) HD) as (Hke & _).
+  apply (continue_claims m ke src k cap ret consumed out hw c'' _ Hk R Q Hke).
+  apply (hs_continue_generic_pos m _ src k cap _ ret consumed out hw c'' Hk Ec).
 Qed.
